@@ -9,6 +9,7 @@ CONSTANTS Balls, Devs, Cap, Target, Shootable,   \* Shootable: devices a playfie
           Escapable,   \* devices a resting ball can leave by itself (bounce out, get lost)
           Holding,     \* devices whose balls are held (ball_hold over the full capacity): ejected only on release
           EntranceCounted,   \* devices that count balls by an entrance switch (a ball can roll over it and bounce back)
+          Saved,       \* TRUE: a game with an unlimited ball save is running - every drained ball is owed back to the playfield
              \* Cap[d] capacity, Target[d] where d ejects to ("pf" = playfield)
           MaxOps
 VARIABLES loc,      \* [Balls -> <<"at", p, p, "ok">> | <<"transit", src, dst, kind>>]  (p a device or "pf"; kind "ok" | "back")
@@ -44,7 +45,7 @@ Arrive(b) == /\ Transit(b)
              /\ UNCHANGED <<fired, want, rel, nops>>
 \* the player: a ball on the playfield drains into the trough / is shot into the lock
 Drain(b) == /\ Budget /\ loc[b] = At("pf") /\ loc' = [loc EXCEPT ![b] = <<"transit", "pf", Home, "ok">>]
-            /\ want' = (IF want > 0 THEN want - 1 ELSE 0) /\ act' = [op |-> "drain"] /\ UNCHANGED <<fired, rel>>
+            /\ want' = (IF Saved THEN want ELSE IF want > 0 THEN want - 1 ELSE 0) /\ act' = [op |-> "drain"] /\ UNCHANGED <<fired, rel>>
 Shot(b, d) == /\ Budget /\ loc[b] = At("pf") /\ d \in Shootable
               /\ Cap[d] - Cardinality(In(d)) - Coming(d) > 0
               /\ loc' = [loc EXCEPT ![b] = <<"transit", "pf", d, "ok">>] /\ act' = [op |-> "shot", d |-> d]
